@@ -143,6 +143,45 @@ def zbuff_wrappers(prog, res):
     res.need(R, 30)
 
 
+def single_pass_shortcut(prog, res):
+    """T3: the streaming decoder's single-pass shortcut measures and decodes a whole frame from the first byte of the
+    CURRENT input.  That is the frame only if its header was not partly loaded by an earlier call; the shortcut must be
+    guarded by an equality that involves the loaded header size (zds->lhSize), so that under any segmentation the bytes
+    decoded are the frame's."""
+    R = "T3.single-pass-shortcut"
+    f = prog.fn("ZSTD_decompressStream")
+    short = f.call_roots(("ZSTD_decompress_usingDDict",))
+    res.check(len(short) == 1, R, "site", f.loc, "one single-pass shortcut", "single-pass shortcut sites: %d" % len(short))
+    if not short:
+        return
+    def has_lh(a, depth=0):
+        """lhSize itself (possibly through a local copy or arithmetic), not a value computed by a call that takes it"""
+        a = strip_casts(f.resolve_x(a))
+        if a is None or a.get("k") == "call":
+            return False
+        if a.get("k") == "mem":
+            return a.get("f") == "lhSize"
+        if a.get("k") == "ref" and a.get("rk") in ("l", "sl") and depth < 3:
+            d = f.single_def(a["n"])
+            return d is not None and has_lh(d, depth + 1)
+        if a.get("k") == "bin":
+            return has_lh(a["lhs"], depth) or has_lh(a["rhs"], depth)
+        return False
+    eq = guards.rel_edges(f, has_lh, "==", lambda b: True) + guards.rel_edges(f, lambda a: True, "==", has_lh)
+    ok = bool(eq) and f.must_pass(via_edges=eq, targets=short)
+    res.check(ok, R, "frame-starts-in-this-input", f.loc,
+              "the shortcut is reached only through an equality on zds->lhSize (header entirely inside the current input)",
+              "the single-pass shortcut can be taken when part of the frame header was loaded by a previous call: it then parses the "
+              "current input from its first byte as if a frame started there (a frame whose size field spells a skippable magic is "
+              "reported complete after a few bytes)")
+    # and its source is the start of the input, its size bounded by the input
+    fcs = guards.rel_edges(f, lambda a: any(y.get("f") == "frameContentSize" for y in f.walk_deep(a)), "<=", lambda b: True) + \
+        guards.rel_edges(f, lambda a: True, ">=", lambda b: any(y.get("f") == "frameContentSize" for y in f.walk_deep(b)))
+    res.check(bool(fcs) and f.must_pass(via_edges=fcs, targets=short), R, "output-holds-frame", f.loc,
+              "the shortcut requires the output room to hold the whole frame content", "shortcut no longer requires room for the whole content")
+    res.need(R, 3)
+
+
 def run(tier):
     res = Result("C02", tier)
     tus, info = extract(["compress", "decompress", "deprecated", "common"])
@@ -153,6 +192,7 @@ def run(tier):
     stage_expected_pairing(prog, res)
     window_update(prog, res)
     zbuff_wrappers(prog, res)
+    single_pass_shortcut(prog, res)
     from .C10 import staging_buffer          # shared clause: the staging buffer holds every unit the decoder can ask for
     staging_buffer(prog, res)
     return res.finish(
